@@ -52,21 +52,24 @@ SYMS = ["main", "f", "_init", "foo.part.0", "printf@plt", "deadbeef", "add", "__
 
 class SInst:
     """One synthetic instruction (AT&T spelling)."""
-    __slots__ = ("addr", "mnem", "ops", "annotation", "comment", "nbytes")
+    __slots__ = ("addr", "mnem", "ops", "annotation", "comment", "nbytes", "verbatim")
 
-    def __init__(self, addr: int, mnem: str, ops: List[str], annotation=None, comment=None, nbytes=3):
+    def __init__(self, addr: int, mnem: str, ops: List[str], annotation=None, comment=None, nbytes=3, verbatim=False):
         self.addr = addr
         self.mnem = mnem
         self.ops = ops
         self.annotation = annotation
         self.comment = comment
         self.nbytes = nbytes
+        self.verbatim = verbatim      # operands outside the normal-form table that reach the stream as they are printed (%zmm0{%k1}{z}, {rn-sae})
 
     def fields(self):
         """Expected (addr, mnemonic, operand fields) in normal form."""
         norm = []
         for o in self.ops:
             n = refline.normalize_operand(o)
+            if n is None and self.verbatim and "(" not in o and "$" not in o:
+                n = o
             if n is None:
                 raise ValueError(f"operand outside the specified shapes: {o}")
             norm.append(n)
